@@ -7,7 +7,7 @@
      el     index in Elasticities, cst index in Nortons / Plasticities (0 for elastic laws)
      theta, dt  rationals; e0 initial elastic strain, de strain increment (integer 6-vectors, units of 1/1024)
      p0     initial equivalent (visco)plastic strain (rational)
-     sub    2 when the step is also applied in two halves (rate-independent law on a radial path, theta = 1, strain
+     sub    2 when the step is also applied in two halves (von Mises plasticity with linear isotropic hardening on a radial path, theta = 1, strain
             hypotheses: under plane stress the axial strain makes the path non radial)
      exact  which closed form gives the expected values: "hooke" | "norton-linear" | "norton-axis" | "plastic-axis" | "none"
      axis   k of the axis-aligned states (0 otherwise)
@@ -56,6 +56,9 @@ Behaviours(thorough) == IF thorough THEN ThoroughBehaviours ELSE QuickBehaviours
 ThoroughHyps(b) ==
   IF b.fam = "brick" THEN {"Tridimensional", "PlaneStress", "AxisymmetricalGeneralisedPlaneStress"}
   ELSE IF b.dsl = "RungeKutta" THEN {"Tridimensional", "AxisymmetricalGeneralisedPlaneStrain"}
+  \* (the second Broyden algorithm starts from the identity as inverse jacobian and gives up on nearly every step once
+  \* the axial strain is an unknown: plane stress is left out for it)
+  ELSE IF b.algo = "Broyden2" THEN {"Tridimensional", "AxisymmetricalGeneralisedPlaneStrain"}
   ELSE IF b.dsl = "Implicit" /\ ~(b.algo = "NewtonRaphson" /\ b.jac \in {"analytic", "brick"})
        THEN {"Tridimensional", "PlaneStress", "AxisymmetricalGeneralisedPlaneStrain"}
   ELSE AllHyps
@@ -120,13 +123,17 @@ ExactOfAxis(b, h, ec) ==
   ELSE IF b.law = "plastic" /\ b.ihr = "Linear" THEN "plastic-axis"
   ELSE "none"
 P0s(b) == IF b.law = "plastic" THEN {<<0, 1>>, <<1, 64>>} ELSE IF b.law = "shcreep" THEN {<<1, 64>>} ELSE {<<0, 1>>}
+\* the backward Euler radial return is exact on a radial path, hence independent of the subdivision of the step, for the
+\* von Mises criterion with linear isotropic hardening only (an anisotropic or non quadratic criterion turns the normal,
+\* a kinematic hardening rule moves the centre)
+Subdivisible(b) == b.law = "plastic" /\ Scheme(b) = "theta" /\ b.crit = "Mises" /\ b.ihr = "Linear" /\ b.khr = "none"
 SizeOf(thorough, h) == IF thorough /\ h = "Tridimensional" THEN "L" ELSE "S"
 CasesOf(thorough, b, h) ==
   LET size == SizeOf(thorough, h) IN
   {C(b, h, ec, tt, s[2], s[3], p0, 1, ExactOfGeneral(b, h, ec), 0, s[1]) :
       ec \in ConstantsOf(b, size), tt \in TimeSchemes(b, size), s \in GeneralSteps, p0 \in P0s(b)}
   \cup {C(b, h, ec, tt, Axis(s[1], s[2], s[3]), Axis(s[1], s[4], s[5]), p0,
-          IF b.law = "plastic" /\ tt[1] = One /\ Scheme(b) = "theta" /\ h \in StrainHyps THEN 2 ELSE 1, ExactOfAxis(b, h, ec), s[1], "axis") :
+          IF Subdivisible(b) /\ tt[1] = One /\ h \in StrainHyps THEN 2 ELSE 1, ExactOfAxis(b, h, ec), s[1], "axis") :
       ec \in ConstantsOf(b, size), tt \in TimeSchemes(b, size), p0 \in P0s(b),
       s \in IF b.law = "plastic" THEN PlasticAxisSteps(size) ELSE OtherAxisSteps(size)}
 AllCases(thorough) == UNION {CasesOf(thorough, b, h) : <<b, h>> \in {<<b, h>> \in Behaviours(thorough) \X AllHyps : h \in HypsOf(thorough, b)}}
